@@ -703,6 +703,23 @@ theorem C03_tie_dot (u v : Pt α) : Gen.dot u v = .ok (dot u v) := rfl
 theorem C03_tie_norm (v : Pt α) : Gen.norm v = .ok (norm v) := rfl
 theorem C03_tie_d (u v : Pt α) : Gen.d u v = .ok (dist u v) := rfl
 
+/-- `distPointToSegment` (simplify.go) below its range guard -/
+theorem C03_tie_distPointToSegment_core (p s e : Pt α) : Gen.distPointToSegment_core p s e = .ok (dpsCore p s e) := by
+  unfold Gen.distPointToSegment_core dpsCore
+  simp only [C03_tie_pointSubtract, C03_tie_dot, C03_tie_d, bind, Except.bind, pure, Except.pure]
+  split
+  · rfl
+  · split <;> rfl
+
+/-- `distPointToSegment` as regenerated (range guard = the recognised statement group: `RNum.rescale`, the recursive
+call on the rescaled copy is the code below the guard) returns the model's `distPointToSegment` -/
+theorem C03_tie_distPointToSegment (p s e : Pt α) :
+    Gen.distPointToSegment p s e = .ok (distPointToSegment p s e) := by
+  unfold Gen.distPointToSegment distPointToSegment
+  simp only [C03_tie_pointSubtract, C03_tie_distPointToSegment_core, bind, Except.bind, pure, Except.pure]
+  cases h : RNum.rescale (RNum.max (RNum.max (RNum.abs (psub e s).x) (RNum.abs (psub e s).y))
+      (RNum.max (RNum.abs (psub p s).x) (RNum.abs (psub p s).y))) <;> rfl
+
 theorem distanceGo_pairFold (p : Pt α) : ∀ (l : List (Pt α)) (d : Option α),
     distanceGo p d l = pairFold (fun d a b => ominL d (distPointToSegment p a b)) d l := by
   intro l
@@ -714,7 +731,7 @@ theorem distanceGo_pairFold (p : Pt α) : ∀ (l : List (Pt α)) (d : Option α)
     | nil => simp [distanceGo, pairFold]
     | cons b t => simp only [distanceGo, pairFold]; exact ih _
 
-/-- `LineString.Distance` as regenerated (its call of `distPointToSegment` is the model's function) returns,
+/-- `LineString.Distance` as regenerated returns,
 without fault, the model's `lineStringDistance`; `none` is `math.Inf(1)` -/
 theorem C03_tie_LineString_Distance (l : List (Pt α)) (p : Pt α) :
     Gen.lineString_Distance l p = .ok (lineStringDistance l p) := by
@@ -723,7 +740,7 @@ theorem C03_tie_LineString_Distance (l : List (Pt α)) (p : Pt α) :
   rw [forLt_pairs (fun d a b => ominL d (distPointToSegment p a b))]
   · simp [distanceGo_pairFold]
   · intro s i a b ha hb
-    simp [idx_some l i a ha, idx_some_succ l i b hb, Go.minInf]
+    simp [idx_some l i a ha, idx_some_succ l i b hb, Go.minInf, C03_tie_distPointToSegment, bind, Except.bind]
 
 /-- `MultiLineString.Distance` as regenerated returns, without fault, the model's `multiLineStringDistance` -/
 theorem C03_tie_MultiLineString_Distance (ml : List (List (Pt α))) (p : Pt α) :
